@@ -275,4 +275,608 @@ theorem assemble_positions (eps : K) (o n : V3 K) (verts : List (V3 K))
     · exact tris_valid verts.length (fun e : Nat × T3 Nat × Nat => e.2.1.get e.2.2) tris (fun e he => T3.get_lt _ _ (ht e he) _)
         (verts.length + 2 * quads.length) _ (by omega) 0 (by omega) f hf
 
+
+/-- the kernel's answer for face number `e.1` with corners `e.2.1` -/
+def kernelAt (tol eps : K) (o n : V3 K) (verts : List (V3 K)) (mask : List Bool)
+    (e : Nat × T3 Nat × FaceKind) : List (T3 (V3 K)) :=
+  sliceFacePos tol eps o n (facePos verts e.2.1) (mask.getD e.1 true)
+
+/-- kernel triangles tagged with their source face number -/
+def taggedKernel (tol eps : K) (o n : V3 K) (verts : List (V3 K)) (mask : List Bool)
+    (e : Nat × T3 Nat × FaceKind) : List (Nat × T3 (V3 K)) :=
+  (kernelAt tol eps o n verts mask e).map fun t => (e.1, t)
+
+def isQuadK : Nat × T3 Nat × FaceKind → Bool
+  | (_, _, .quad _) => true
+  | _ => false
+def isTriK : Nat × T3 Nat × FaceKind → Bool
+  | (_, _, .tri _) => true
+  | _ => false
+
+/-- every entry of the classified list is a face of the input with its number, and carries the kernel's own
+    classification of that face -/
+theorem kinds_spec (tol : K) (o n : V3 K) (verts : List (V3 K)) (faces : List (T3 Nat)) (mask : List Bool)
+    (hv : ∀ f ∈ faces, FaceValid verts.length f) :
+    ∀ e ∈ kindsOf tol o n verts faces mask,
+      faces[e.1]? = some e.2.1 ∧ FaceValid verts.length e.2.1 ∧
+      e.2.2 = classifyFace ((facePos verts e.2.1).map fun v => vsign tol (offset o n v)) (mask.getD e.1 true) := by
+  intro e he
+  unfold kindsOf at he
+  obtain ⟨⟨f, i⟩, hfi, rfl⟩ := List.mem_map.mp he
+  have hget : faces[i]? = some f := by
+    obtain ⟨hi, hf⟩ := List.mem_zipIdx' hfi
+    rw [List.getElem?_eq_getElem hi, hf]
+  have hf : f ∈ faces := List.mem_of_getElem? hget
+  obtain ⟨ha, hb, hc⟩ := hv f hf
+  refine ⟨hget, hv f hf, ?_⟩
+  simp only
+  congr 1
+  have key : ∀ j, j < verts.length →
+      (vsigns tol o n verts).getD j 0 = vsign tol (offset o n (verts.getD j V3.zero)) := by
+    intro j hj
+    simp [vsigns, List.getD, List.getElem?_map, List.getElem?_eq_getElem hj]
+  simp only [facePos, T3.map, key _ ha, key _ hb, key _ hc]
+
+theorem kernel_keep (tol eps : K) (o n : V3 K) (verts : List (V3 K)) (mask : List Bool)
+    (e : Nat × T3 Nat × FaceKind)
+    (hk : e.2.2 = classifyFace ((facePos verts e.2.1).map fun v => vsign tol (offset o n v)) (mask.getD e.1 true))
+    (h : isKeep e = true) : kernelAt tol eps o n verts mask e = [facePos verts e.2.1] := by
+  obtain ⟨i, f, k⟩ := e
+  have hk' : k = .keep := by cases k <;> simp [isKeep] at h ⊢
+  subst hk'
+  unfold kernelAt sliceFacePos
+  simp only at hk ⊢
+  rw [← hk]
+
+theorem kernel_quad (tol eps : K) (o n : V3 K) (verts : List (V3 K)) (mask : List Bool)
+    (i : Nat) (f : T3 Nat) (c : Nat)
+    (hk : FaceKind.quad c = classifyFace ((facePos verts f).map fun v => vsign tol (offset o n v)) (mask.getD i true)) :
+    kernelAt tol eps o n verts mask (i, f, .quad c) = quadOut eps o n verts (i, f, c) := by
+  unfold kernelAt sliceFacePos quadOut
+  simp only
+  rw [← hk]
+
+theorem kernel_tri (tol eps : K) (o n : V3 K) (verts : List (V3 K)) (mask : List Bool)
+    (i : Nat) (f : T3 Nat) (c : Nat)
+    (hk : FaceKind.tri c = classifyFace ((facePos verts f).map fun v => vsign tol (offset o n v)) (mask.getD i true)) :
+    kernelAt tol eps o n verts mask (i, f, .tri c) = [triOut eps o n verts (i, f, c)] := by
+  unfold kernelAt sliceFacePos triOut
+  simp only
+  rw [← hk]
+
+/-- the classification stored in an entry is the kernel's own -/
+def EntryOk (tol : K) (o n : V3 K) (verts : List (V3 K)) (mask : List Bool) (e : Nat × T3 Nat × FaceKind) : Prop :=
+  e.2.2 = classifyFace ((facePos verts e.2.1).map fun v => vsign tol (offset o n v)) (mask.getD e.1 true)
+
+theorem group_keep (tol eps : K) (o n : V3 K) (verts : List (V3 K)) (mask : List Bool)
+    (L : List (Nat × T3 Nat × FaceKind)) (h : ∀ e ∈ L, EntryOk tol o n verts mask e) :
+    ((L.filter isKeep).map (·.1)).zip ((L.filter isKeep).map fun e => facePos verts e.2.1) =
+      (L.filter isKeep).flatMap (taggedKernel tol eps o n verts mask) := by
+  induction L with
+  | nil => rfl
+  | cons e l ih =>
+    have ih' := ih (fun e' he' => h e' (by simp [he']))
+    by_cases hk : isKeep e = true
+    · rw [List.filter_cons_of_pos hk, List.flatMap_cons, List.map_cons, List.map_cons, List.zip_cons_cons, ih']
+      unfold taggedKernel
+      rw [kernel_keep tol eps o n verts mask e (h e (by simp)) hk]
+      rfl
+    · rw [List.filter_cons_of_neg hk]; exact ih'
+
+theorem group_quad (tol eps : K) (o n : V3 K) (verts : List (V3 K)) (mask : List Bool)
+    (L : List (Nat × T3 Nat × FaceKind)) (h : ∀ e ∈ L, EntryOk tol o n verts mask e) :
+    ((L.filterMap quadSel).flatMap fun e => [e.1, e.1]).zip ((L.filterMap quadSel).flatMap (quadOut eps o n verts)) =
+      (L.filter isQuadK).flatMap (taggedKernel tol eps o n verts mask) := by
+  induction L with
+  | nil => rfl
+  | cons e l ih =>
+    have ih' := ih (fun e' he' => h e' (by simp [he']))
+    have hsp := h e (by simp)
+    obtain ⟨i, f, k⟩ := e
+    cases k with
+    | quad c =>
+      have e1 : List.filterMap quadSel ((i, f, FaceKind.quad c) :: l) = (i, f, c) :: List.filterMap quadSel l := by
+        simp [List.filterMap_cons, quadSel]
+      have e2 : List.filter isQuadK ((i, f, FaceKind.quad c) :: l) = (i, f, FaceKind.quad c) :: List.filter isQuadK l := by
+        simp [List.filter_cons, isQuadK]
+      rw [e1, e2, List.flatMap_cons, List.flatMap_cons, List.flatMap_cons]
+      have hq : quadOut eps o n verts (i, f, c) = kernelAt tol eps o n verts mask (i, f, .quad c) :=
+        (kernel_quad tol eps o n verts mask i f c hsp).symm
+      have hlen : ([i, i] : List Nat).length = (quadOut eps o n verts (i, f, c)).length := by simp [quadOut]
+      rw [List.zip_append hlen, ih']
+      congr 1
+      unfold taggedKernel
+      rw [← hq]
+      simp [quadOut]
+    | keep =>
+      have e1 : List.filterMap quadSel ((i, f, FaceKind.keep) :: l) = List.filterMap quadSel l := by
+        simp [List.filterMap_cons, quadSel]
+      have e2 : List.filter isQuadK ((i, f, FaceKind.keep) :: l) = List.filter isQuadK l := by
+        simp [List.filter_cons, isQuadK]
+      rw [e1, e2]; exact ih'
+    | drop =>
+      have e1 : List.filterMap quadSel ((i, f, FaceKind.drop) :: l) = List.filterMap quadSel l := by
+        simp [List.filterMap_cons, quadSel]
+      have e2 : List.filter isQuadK ((i, f, FaceKind.drop) :: l) = List.filter isQuadK l := by
+        simp [List.filter_cons, isQuadK]
+      rw [e1, e2]; exact ih'
+    | tri c =>
+      have e1 : List.filterMap quadSel ((i, f, FaceKind.tri c) :: l) = List.filterMap quadSel l := by
+        simp [List.filterMap_cons, quadSel]
+      have e2 : List.filter isQuadK ((i, f, FaceKind.tri c) :: l) = List.filter isQuadK l := by
+        simp [List.filter_cons, isQuadK]
+      rw [e1, e2]; exact ih'
+
+theorem group_tri (tol eps : K) (o n : V3 K) (verts : List (V3 K)) (mask : List Bool)
+    (L : List (Nat × T3 Nat × FaceKind)) (h : ∀ e ∈ L, EntryOk tol o n verts mask e) :
+    ((L.filterMap triSel).map (·.1)).zip ((L.filterMap triSel).map (triOut eps o n verts)) =
+      (L.filter isTriK).flatMap (taggedKernel tol eps o n verts mask) := by
+  induction L with
+  | nil => rfl
+  | cons e l ih =>
+    have ih' := ih (fun e' he' => h e' (by simp [he']))
+    have hsp := h e (by simp)
+    obtain ⟨i, f, k⟩ := e
+    cases k with
+    | tri c =>
+      have e1 : List.filterMap triSel ((i, f, FaceKind.tri c) :: l) = (i, f, c) :: List.filterMap triSel l := by
+        simp [List.filterMap_cons, triSel]
+      have e2 : List.filter isTriK ((i, f, FaceKind.tri c) :: l) = (i, f, FaceKind.tri c) :: List.filter isTriK l := by
+        simp [List.filter_cons, isTriK]
+      rw [e1, e2, List.map_cons, List.map_cons, List.zip_cons_cons, List.flatMap_cons, ih']
+      unfold taggedKernel
+      rw [kernel_tri tol eps o n verts mask i f c hsp]
+      rfl
+    | keep =>
+      have e1 : List.filterMap triSel ((i, f, FaceKind.keep) :: l) = List.filterMap triSel l := by
+        simp [List.filterMap_cons, triSel]
+      have e2 : List.filter isTriK ((i, f, FaceKind.keep) :: l) = List.filter isTriK l := by
+        simp [List.filter_cons, isTriK]
+      rw [e1, e2]; exact ih'
+    | drop =>
+      have e1 : List.filterMap triSel ((i, f, FaceKind.drop) :: l) = List.filterMap triSel l := by
+        simp [List.filterMap_cons, triSel]
+      have e2 : List.filter isTriK ((i, f, FaceKind.drop) :: l) = List.filter isTriK l := by
+        simp [List.filter_cons, isTriK]
+      rw [e1, e2]; exact ih'
+    | quad c =>
+      have e1 : List.filterMap triSel ((i, f, FaceKind.quad c) :: l) = List.filterMap triSel l := by
+        simp [List.filterMap_cons, triSel]
+      have e2 : List.filter isTriK ((i, f, FaceKind.quad c) :: l) = List.filter isTriK l := by
+        simp [List.filter_cons, isTriK]
+      rw [e1, e2]; exact ih'
+
+theorem len_quad (eps : K) (o n : V3 K) (verts : List (V3 K)) (Q : List (Nat × T3 Nat × Nat)) :
+    (Q.flatMap fun e => [e.1, e.1]).length = (Q.flatMap (quadOut eps o n verts)).length := by
+  induction Q with
+  | nil => rfl
+  | cons e l ih => simp only [List.flatMap_cons, List.length_append, ih]; simp [quadOut]
+
+theorem sel_valid (verts : List (V3 K)) (L : List (Nat × T3 Nat × FaceKind))
+    (h : ∀ e ∈ L, FaceValid verts.length e.2.1) :
+    (∀ e ∈ L.filterMap quadSel, FaceValid verts.length e.2.1) ∧
+    (∀ e ∈ L.filterMap triSel, FaceValid verts.length e.2.1) := by
+  constructor
+  · intro e he
+    obtain ⟨⟨i, f, k⟩, he0, hsel⟩ := List.mem_filterMap.mp he
+    cases k <;> simp [quadSel] at hsel
+    subst hsel
+    exact h _ he0
+  · intro e he
+    obtain ⟨⟨i, f, k⟩, he0, hsel⟩ := List.mem_filterMap.mp he
+    cases k <;> simp [triSel] at hsel
+    subst hsel
+    exact h _ he0
+
+/-- **the assembly is the kernel, face by face** (non-empty vertex list, valid faces): pairing each returned face's
+    source number (`face_mapping`) with its three positions gives exactly the kernel's triangles of the kept faces,
+    then of the faces cut into quads, then of the faces cut into triangles — each in input order, each tagged with
+    its own face number.  Holds for every mask; `ret_face_mapping` only decides whether the mapping is returned. -/
+theorem C02_mesh_lift (tol eps : K) (verts : List (V3 K)) (faces : List (T3 Nat)) (o n : V3 K)
+    (mask : List Bool) (hne : verts ≠ []) (hv : ∀ f ∈ faces, FaceValid verts.length f) :
+    (sliceMesh tol eps verts faces o n mask).mapping.zip (sliceMesh tol eps verts faces o n mask).positions =
+      ((kindsOf tol o n verts faces mask).filter isKeep).flatMap (taggedKernel tol eps o n verts mask) ++
+      ((kindsOf tol o n verts faces mask).filter isQuadK).flatMap (taggedKernel tol eps o n verts mask) ++
+      ((kindsOf tol o n verts faces mask).filter isTriK).flatMap (taggedKernel tol eps o n verts mask) ∧
+    (sliceMesh tol eps verts faces o n mask).mapping.length =
+      (sliceMesh tol eps verts faces o n mask).faces.length := by
+  have hspec := kinds_spec tol o n verts faces mask hv
+  have hun := sliceMesh_unfold tol eps verts faces o n mask hne
+  simp only at hun
+  generalize hL : kindsOf tol o n verts faces mask = L at hspec hun ⊢
+  have hok : ∀ e ∈ L, EntryOk tol o n verts mask e := fun e he => (hspec e he).2.2
+  have hvalL : ∀ e ∈ L, FaceValid verts.length e.2.1 := fun e he => (hspec e he).2.1
+  have hkv : ∀ e ∈ L.filter isKeep, FaceValid verts.length e.2.1 := fun e he =>
+    hvalL e (List.mem_of_mem_filter he)
+  obtain ⟨hqv, htv⟩ := sel_valid verts L hvalL
+  obtain ⟨hpos, hvalid⟩ := assemble_positions eps o n verts _ _ _ hkv hqv htv
+  have hcs := (C02_compact_spec _ _ hvalid).2.2.1
+  have hposr : (sliceMesh tol eps verts faces o n mask).positions =
+      (L.filter isKeep).map (fun e => facePos verts e.2.1) ++ (L.filterMap quadSel).flatMap (quadOut eps o n verts) ++
+      (L.filterMap triSel).map (triOut eps o n verts) := by
+    rw [hun]; unfold Result.positions; simp only; rw [hcs, hpos]
+  have hmapr : (sliceMesh tol eps verts faces o n mask).mapping =
+      newMappingOf (L.filter isKeep) (L.filterMap quadSel) (L.filterMap triSel) := by
+    rw [hun]
+  have l1 : ((L.filter isKeep).map (·.1)).length = ((L.filter isKeep).map fun e => facePos verts e.2.1).length := by
+    simp
+  have l2 := len_quad eps o n verts (L.filterMap quadSel)
+  constructor
+  · rw [hposr, hmapr]
+    unfold newMappingOf
+    rw [List.zip_append (by simp only [List.length_append, l1, l2]), List.zip_append l1,
+      group_keep tol eps o n verts mask L hok, group_quad tol eps o n verts mask L hok,
+      group_tri tol eps o n verts mask L hok]
+  · have : (sliceMesh tol eps verts faces o n mask).positions.length =
+        (sliceMesh tol eps verts faces o n mask).faces.length := by unfold Result.positions; simp
+    rw [← this, hposr, hmapr]
+    unfold newMappingOf
+    simp only [List.length_append, l1, l2, List.length_map]
+
+
+/-! ## C. consequences -/
+
+/-- **valid indexed mesh**: every returned face indexes returned vertices, and every returned vertex is used by a
+    face — on every return path (nothing cut and nothing kept, nothing cut, quads and/or triangles cut). -/
+theorem C02_indices_valid_no_orphans (tol eps : K) (verts : List (V3 K)) (faces : List (T3 Nat)) (o n : V3 K)
+    (mask : List Bool) (hne : verts ≠ []) (hv : ∀ f ∈ faces, FaceValid verts.length f) :
+    let r := sliceMesh tol eps verts faces o n mask
+    (∀ f ∈ r.faces, FaceValid r.verts.length f) ∧
+    (∀ j < r.verts.length, ∃ f ∈ r.faces, f.a = j ∨ f.b = j ∨ f.c = j) := by
+  intro r
+  have hspec := kinds_spec tol o n verts faces mask hv
+  have hun := sliceMesh_unfold tol eps verts faces o n mask hne
+  simp only at hun
+  generalize hL : kindsOf tol o n verts faces mask = L at hspec hun
+  have hvalL : ∀ e ∈ L, FaceValid verts.length e.2.1 := fun e he => (hspec e he).2.1
+  have hkv : ∀ e ∈ L.filter isKeep, FaceValid verts.length e.2.1 := fun e he =>
+    hvalL e (List.mem_of_mem_filter he)
+  obtain ⟨hqv, htv⟩ := sel_valid verts L hvalL
+  obtain ⟨_, hvalid⟩ := assemble_positions eps o n verts _ _ _ hkv hqv htv
+  obtain ⟨h1, h2, _, _⟩ := C02_compact_spec _ _ hvalid
+  show (∀ f ∈ (sliceMesh tol eps verts faces o n mask).faces,
+      FaceValid (sliceMesh tol eps verts faces o n mask).verts.length f) ∧
+    (∀ j < (sliceMesh tol eps verts faces o n mask).verts.length,
+      ∃ f ∈ (sliceMesh tol eps verts faces o n mask).faces, f.a = j ∨ f.b = j ∨ f.c = j)
+  rw [hun]
+  exact ⟨h1, h2⟩
+
+/-- **provenance**: every returned face, paired with its `face_mapping` entry `i`, is one of the kernel's triangles
+    for input face `i` — hence (C01) lies in that face's plane and outline, with the same orientation. -/
+theorem C02_provenance (tol eps : K) (verts : List (V3 K)) (faces : List (T3 Nat)) (o n : V3 K)
+    (mask : List Bool) (hne : verts ≠ []) (hv : ∀ f ∈ faces, FaceValid verts.length f) :
+    ∀ it ∈ (sliceMesh tol eps verts faces o n mask).mapping.zip (sliceMesh tol eps verts faces o n mask).positions,
+      ∃ f, faces[it.1]? = some f ∧ it.2 ∈ sliceFacePos tol eps o n (facePos verts f) (mask.getD it.1 true) := by
+  intro it hit
+  rw [(C02_mesh_lift tol eps verts faces o n mask hne hv).1] at hit
+  have hspec := kinds_spec tol o n verts faces mask hv
+  have key : ∀ L' : List (Nat × T3 Nat × FaceKind), (∀ e ∈ L', e ∈ kindsOf tol o n verts faces mask) →
+      it ∈ L'.flatMap (taggedKernel tol eps o n verts mask) →
+      ∃ f, faces[it.1]? = some f ∧ it.2 ∈ sliceFacePos tol eps o n (facePos verts f) (mask.getD it.1 true) := by
+    intro L' hsub hmem
+    obtain ⟨e, he, hin⟩ := List.mem_flatMap.mp hmem
+    unfold taggedKernel at hin
+    obtain ⟨t, ht, rfl⟩ := List.mem_map.mp hin
+    exact ⟨e.2.1, (hspec e (hsub e he)).1, ht⟩
+  simp only [List.mem_append] at hit
+  rcases hit with (h | h) | h
+  · exact key _ (fun e he => List.mem_of_mem_filter he) h
+  · exact key _ (fun e he => List.mem_of_mem_filter he) h
+  · exact key _ (fun e he => List.mem_of_mem_filter he) h
+
+/-- … so no returned vertex position lies outside the input face named by the mapping (C01 lifted to the arrays). -/
+theorem C02_output_in_source_face (tol eps : K) (verts : List (V3 K)) (faces : List (T3 Nat)) (o n : V3 K)
+    (mask : List Bool) (hne : verts ≠ []) (hv : ∀ f ∈ faces, FaceValid verts.length f) :
+    ∀ it ∈ (sliceMesh tol eps verts faces o n mask).mapping.zip (sliceMesh tol eps verts faces o n mask).positions,
+      ∃ f, faces[it.1]? = some f ∧ PW.C01.InFace (facePos verts f) it.2.a ∧
+        PW.C01.InFace (facePos verts f) it.2.b ∧ PW.C01.InFace (facePos verts f) it.2.c := by
+  intro it hit
+  obtain ⟨f, hf, hk⟩ := C02_provenance tol eps verts faces o n mask hne hv it hit
+  exact ⟨f, hf, PW.C01.C01_out_in_face tol eps o n _ _ _ hk⟩
+
+/-- **completeness**: every triangle the kernel produces for input face `i` is returned, tagged `i`. -/
+theorem C02_complete (tol eps : K) (verts : List (V3 K)) (faces : List (T3 Nat)) (o n : V3 K)
+    (mask : List Bool) (hne : verts ≠ []) (hv : ∀ f ∈ faces, FaceValid verts.length f)
+    (i : Nat) (f : T3 Nat) (hf : faces[i]? = some f) :
+    ∀ t ∈ sliceFacePos tol eps o n (facePos verts f) (mask.getD i true),
+      (i, t) ∈ (sliceMesh tol eps verts faces o n mask).mapping.zip
+        (sliceMesh tol eps verts faces o n mask).positions := by
+  intro t ht
+  rw [(C02_mesh_lift tol eps verts faces o n mask hne hv).1]
+  have hspec := kinds_spec tol o n verts faces mask hv
+  -- the entry of face i
+  have hmem : (f, i) ∈ faces.zipIdx := by
+    have hi : i < faces.length := (List.getElem?_eq_some_iff.mp hf).1
+    have : faces[i] = f := (List.getElem?_eq_some_iff.mp hf).2
+    exact List.mem_zipIdx_iff_getElem?.mpr (by simpa using hf)
+  set e : Nat × T3 Nat × FaceKind :=
+    (i, f, classifyFace (f.map fun j => (vsigns tol o n verts).getD j 0) (mask.getD i true)) with he
+  have hein : e ∈ kindsOf tol o n verts faces mask := by
+    unfold kindsOf
+    exact List.mem_map.mpr ⟨(f, i), hmem, rfl⟩
+  have htag : (i, t) ∈ taggedKernel tol eps o n verts mask e := by
+    unfold taggedKernel kernelAt
+    exact List.mem_map.mpr ⟨t, ht, rfl⟩
+  have hok := (hspec e hein).2.2
+  -- which group?
+  have hkind : e.2.2 = classifyFace ((facePos verts f).map fun v => vsign tol (offset o n v)) (mask.getD i true) := hok
+  simp only [List.mem_append, List.mem_flatMap]
+  cases hk : e.2.2 with
+  | keep => left; left; exact ⟨e, List.mem_filter.mpr ⟨hein, by obtain ⟨a, b, c⟩ := e; simp_all [isKeep]⟩, htag⟩
+  | quad c => left; right; exact ⟨e, List.mem_filter.mpr ⟨hein, by obtain ⟨a, b, c'⟩ := e; simp_all [isQuadK]⟩, htag⟩
+  | tri c => right; exact ⟨e, List.mem_filter.mpr ⟨hein, by obtain ⟨a, b, c'⟩ := e; simp_all [isTriK]⟩, htag⟩
+  | drop =>
+    exfalso
+    unfold sliceFacePos at ht
+    simp only at ht
+    rw [← hkind, hk] at ht
+    simp at ht
+
+/-- **empty inputs**: no vertices → the input arrays are returned; no faces, or every (selected) face dropped and none
+    kept → empty vertex and face lists. -/
+theorem C02_empty (tol eps : K) (verts : List (V3 K)) (faces : List (T3 Nat)) (o n : V3 K) (mask : List Bool) :
+    (verts = [] → sliceMesh tol eps verts faces o n mask = ⟨[], faces, List.range faces.length⟩) ∧
+    (verts ≠ [] → faces = [] → sliceMesh tol eps verts faces o n mask = ⟨[], [], []⟩) := by
+  constructor
+  · intro h; subst h; unfold sliceMesh; simp
+  · intro hne hf
+    subst hf
+    have he : verts.isEmpty = false := by cases verts <;> simp_all
+    unfold sliceMesh
+    simp [he, kindsOf]
+
+
+theorem classify_keep_of_not_behind (tol : K) (ht : 0 ≤ tol) (o n : V3 K) (p : T3 (V3 K)) (sel : Bool)
+    (h : -tol ≤ offset o n p.a ∧ -tol ≤ offset o n p.b ∧ -tol ≤ offset o n p.c) :
+    classifyFace (p.map fun v => vsign tol (offset o n v)) sel = .keep := by
+  have tbl := PW.C01.C01_case_table tol (p.map (offset o n)) sel
+  simp only [PW.C01.CaseTable, PW.C01.behindS, T3.map] at tbl
+  apply tbl.1.mpr
+  right
+  obtain ⟨ha, hb, hc⟩ := h
+  rintro (h1 | h1 | h1)
+  · have := (vsign_behind_iff ht _).mp h1; linarith
+  · have := (vsign_behind_iff ht _).mp h1; linarith
+  · have := (vsign_behind_iff ht _).mp h1; linarith
+
+theorem filter_eq_self_of_all {α : Type} (l : List α) (p : α → Bool) (h : ∀ x ∈ l, p x = true) :
+    l.filter p = l := List.filter_eq_self.mpr h
+
+theorem filter_eq_nil_of_none {α : Type} (l : List α) (p : α → Bool) (h : ∀ x ∈ l, p x = false) :
+    l.filter p = [] := by
+  apply List.filter_eq_nil_iff.mpr
+  intro x hx; simp [h x hx]
+
+/-- **idempotence**: slicing the result again with the same plane (all faces selected) returns the same positional
+    triangles, in the same order — every face of the result has all corners at offset `≥ −tol`, so it is kept. -/
+theorem C02_idempotent (tol eps : K) (ht : 0 ≤ tol) (verts : List (V3 K)) (faces : List (T3 Nat)) (o n : V3 K)
+    (mask mask' : List Bool) (hm : ∀ i, mask.getD i true = true) (hm' : ∀ i, mask'.getD i true = true)
+    (hne : verts ≠ []) (hv : ∀ f ∈ faces, FaceValid verts.length f) :
+    let r := sliceMesh tol eps verts faces o n mask
+    (sliceMesh tol eps r.verts r.faces o n mask').positions = r.positions := by
+  intro r
+  obtain ⟨hvalid, _⟩ := C02_indices_valid_no_orphans tol eps verts faces o n mask hne hv
+  by_cases hr : r.verts = []
+  · -- no vertices: then no faces either
+    have hf : r.faces = [] := by
+      cases hfs : r.faces with
+      | nil => rfl
+      | cons f fs =>
+        exfalso
+        have := hvalid f (by show f ∈ r.faces; rw [hfs]; simp)
+        show False
+        have hlen : r.verts.length = 0 := by rw [hr]; rfl
+        unfold FaceValid at this
+        change f.a < r.verts.length ∧ _ at this
+        omega
+    have e1 := (C02_empty tol eps r.verts r.faces o n mask').1 hr
+    rw [e1]
+    unfold Result.positions
+    simp [hf]
+  · -- every face of r is kept by the second slice
+    have lift2 := (C02_mesh_lift tol eps r.verts r.faces o n mask' hr hvalid)
+    have hspec2 := kinds_spec tol o n r.verts r.faces mask' hvalid
+    have hprov := C02_provenance tol eps verts faces o n mask hne hv
+    have hlen1 := (C02_mesh_lift tol eps verts faces o n mask hne hv).2
+    -- each entry of the second classification is `keep`
+    have hkeep : ∀ e ∈ kindsOf tol o n r.verts r.faces mask', e.2.2 = FaceKind.keep := by
+      intro e he
+      obtain ⟨hget, _, hk⟩ := hspec2 e he
+      rw [hk]
+      apply classify_keep_of_not_behind tol ht
+      -- facePos r.verts e.2.1 is r.positions[e.1], one of the kernel's triangles of a selected face
+      have hj : e.1 < r.faces.length := (List.getElem?_eq_some_iff.mp hget).1
+      have hpos : r.positions[e.1]? = some (facePos r.verts e.2.1) := by
+        unfold Result.positions
+        rw [List.getElem?_map, hget]; rfl
+      have hjm : e.1 < r.mapping.length := by rw [hlen1]; exact hj
+      have hzip : (r.mapping[e.1], facePos r.verts e.2.1) ∈ r.mapping.zip r.positions := by
+        apply List.mem_iff_getElem?.mpr
+        refine ⟨e.1, ?_⟩
+        rw [List.getElem?_zip_eq_some]
+        exact ⟨List.getElem?_eq_getElem hjm, hpos⟩
+      obtain ⟨f, _, hin⟩ := hprov _ hzip
+      simp only at hin
+      rw [hm] at hin
+      exact PW.C01.C01_not_behind tol eps ht o n _ _ hin
+    have hK : ∀ e ∈ kindsOf tol o n r.verts r.faces mask', isKeep e = true := by
+      intro e he; obtain ⟨i, f, k⟩ := e; have := hkeep _ he; simp only at this; subst this; rfl
+    have hQ : ∀ e ∈ kindsOf tol o n r.verts r.faces mask', isQuadK e = false := by
+      intro e he; obtain ⟨i, f, k⟩ := e; have := hkeep _ he; simp only at this; subst this; rfl
+    have hT : ∀ e ∈ kindsOf tol o n r.verts r.faces mask', isTriK e = false := by
+      intro e he; obtain ⟨i, f, k⟩ := e; have := hkeep _ he; simp only at this; subst this; rfl
+    obtain ⟨hz, hl⟩ := lift2
+    rw [filter_eq_self_of_all _ _ hK, filter_eq_nil_of_none _ _ hQ, filter_eq_nil_of_none _ _ hT] at hz
+    simp only [List.flatMap_nil, List.append_nil] at hz
+    -- second components of the zip
+    have hsnd : (sliceMesh tol eps r.verts r.faces o n mask').positions =
+        ((kindsOf tol o n r.verts r.faces mask').flatMap (taggedKernel tol eps o n r.verts mask')).map (·.2) := by
+      rw [← hz, List.map_snd_zip]
+      have : (sliceMesh tol eps r.verts r.faces o n mask').positions.length =
+          (sliceMesh tol eps r.verts r.faces o n mask').faces.length := by unfold Result.positions; simp
+      omega
+    rw [hsnd]
+    -- each entry contributes exactly its own positional triangle
+    have hone : ∀ e ∈ kindsOf tol o n r.verts r.faces mask',
+        taggedKernel tol eps o n r.verts mask' e = [(e.1, facePos r.verts e.2.1)] := by
+      intro e he
+      unfold taggedKernel
+      rw [kernel_keep tol eps o n r.verts mask' e (hspec2 e he).2.2 (hK e he)]; rfl
+    unfold Result.positions kindsOf
+    rw [List.flatMap_map]
+    clear hz hl hsnd hkeep hK hQ hT hprov hlen1
+    have : ∀ (l : List (T3 Nat × Nat)),
+        (∀ x ∈ l, taggedKernel tol eps o n r.verts mask'
+          (x.2, x.1, classifyFace (x.1.map fun j => (vsigns tol o n r.verts).getD j 0) (mask'.getD x.2 true)) =
+            [(x.2, facePos r.verts x.1)]) →
+        (l.flatMap fun x => taggedKernel tol eps o n r.verts mask'
+          (x.2, x.1, classifyFace (x.1.map fun j => (vsigns tol o n r.verts).getD j 0) (mask'.getD x.2 true))).map (·.2)
+          = l.map fun x => facePos r.verts x.1 := by
+      intro l hl
+      induction l with
+      | nil => rfl
+      | cons x xs ih =>
+        rw [List.flatMap_cons, List.map_append, hl x (by simp), ih (fun y hy => hl y (by simp [hy]))]
+        rfl
+    have h2 := this r.faces.zipIdx (by
+      intro x hx
+      have := hone (x.2, x.1, classifyFace (x.1.map fun j => (vsigns tol o n r.verts).getD j 0) (mask'.getD x.2 true))
+        (by unfold kindsOf; exact List.mem_map.mpr ⟨x, hx, rfl⟩)
+      exact this)
+    rw [show (fun (x : T3 Nat × Nat) => taggedKernel tol eps o n r.verts mask'
+        (match x with | (f, i) => (i, f, classifyFace (f.map fun j => (vsigns tol o n r.verts).getD j 0) (mask'.getD i true))))
+        = fun x => taggedKernel tol eps o n r.verts mask'
+          (x.2, x.1, classifyFace (x.1.map fun j => (vsigns tol o n r.verts).getD j 0) (mask'.getD x.2 true)) from rfl]
+    rw [h2]
+    have : (r.faces.zipIdx.map fun x => facePos r.verts x.1) = (r.faces.zipIdx.map (·.1)).map (facePos r.verts) := by
+      rw [List.map_map]; rfl
+    rw [this, List.zipIdx_map_fst]
+
+
+/-! ### the result depends only on the positional faces: vertex numbering and face order do not matter -/
+
+/-- positional face with its "selected" flag -/
+abbrev PFace (K : Type) := T3 (V3 K) × Bool
+
+def pfKind (tol : K) (o n : V3 K) (x : PFace K) : FaceKind :=
+  classifyFace (x.1.map fun v => vsign tol (offset o n v)) x.2
+
+def pfKeep (tol : K) (o n : V3 K) (x : PFace K) : Bool :=
+  match pfKind tol o n x with | .keep => true | _ => false
+def pfQuad (tol : K) (o n : V3 K) (x : PFace K) : Bool :=
+  match pfKind tol o n x with | .quad _ => true | _ => false
+def pfTri (tol : K) (o n : V3 K) (x : PFace K) : Bool :=
+  match pfKind tol o n x with | .tri _ => true | _ => false
+
+/-- the slicer as a function of the list of positional faces (with their selected flags) alone -/
+def slicePositional (tol eps : K) (o n : V3 K) (pf : List (PFace K)) : List (T3 (V3 K)) :=
+  (pf.filter (pfKeep tol o n)).flatMap (fun x => sliceFacePos tol eps o n x.1 x.2) ++
+  (pf.filter (pfQuad tol o n)).flatMap (fun x => sliceFacePos tol eps o n x.1 x.2) ++
+  (pf.filter (pfTri tol o n)).flatMap (fun x => sliceFacePos tol eps o n x.1 x.2)
+
+/-- the positional faces of an indexed mesh, each with its mask bit -/
+def pfacesOf (verts : List (V3 K)) (faces : List (T3 Nat)) (mask : List Bool) : List (PFace K) :=
+  faces.zipIdx.map fun (f, i) => (facePos verts f, mask.getD i true)
+
+theorem group_positional (tol eps : K) (o n : V3 K) (verts : List (V3 K)) (mask : List Bool)
+    (L : List (Nat × T3 Nat × FaceKind)) (h : ∀ e ∈ L, EntryOk tol o n verts mask e)
+    (pK : Nat × T3 Nat × FaceKind → Bool) (pP : PFace K → Bool)
+    (hp : ∀ e ∈ L, pK e = pP (facePos verts e.2.1, mask.getD e.1 true)) :
+    ((L.filter pK).flatMap (taggedKernel tol eps o n verts mask)).map (·.2) =
+      ((L.map fun e => ((facePos verts e.2.1, mask.getD e.1 true) : PFace K)).filter pP).flatMap
+        (fun x => sliceFacePos tol eps o n x.1 x.2) := by
+  induction L with
+  | nil => rfl
+  | cons e l ih =>
+    have ih' := ih (fun e' he' => h e' (by simp [he'])) (fun e' he' => hp e' (by simp [he']))
+    have hpe := hp e (by simp)
+    rw [List.map_cons]
+    by_cases hk : pK e = true
+    · rw [List.filter_cons_of_pos hk, List.filter_cons_of_pos (by rw [← hpe]; exact hk), List.flatMap_cons,
+        List.flatMap_cons, List.map_append, ih']
+      congr 1
+      unfold taggedKernel kernelAt
+      rw [List.map_map]; simp
+    · rw [List.filter_cons_of_neg hk, List.filter_cons_of_neg (by rw [← hpe]; exact hk)]
+      exact ih'
+
+/-- **the returned triangles are a function of the positional faces alone** -/
+theorem C02_positional (tol eps : K) (verts : List (V3 K)) (faces : List (T3 Nat)) (o n : V3 K)
+    (mask : List Bool) (hne : verts ≠ []) (hv : ∀ f ∈ faces, FaceValid verts.length f) :
+    (sliceMesh tol eps verts faces o n mask).positions =
+      slicePositional tol eps o n (pfacesOf verts faces mask) := by
+  obtain ⟨hz, hl⟩ := C02_mesh_lift tol eps verts faces o n mask hne hv
+  have hspec := kinds_spec tol o n verts faces mask hv
+  have hsnd : (sliceMesh tol eps verts faces o n mask).positions =
+      ((sliceMesh tol eps verts faces o n mask).mapping.zip
+        (sliceMesh tol eps verts faces o n mask).positions).map (·.2) := by
+    rw [List.map_snd_zip]
+    have : (sliceMesh tol eps verts faces o n mask).positions.length =
+        (sliceMesh tol eps verts faces o n mask).faces.length := by unfold Result.positions; simp
+    omega
+  rw [hsnd, hz, List.map_append, List.map_append]
+  have hok : ∀ e ∈ kindsOf tol o n verts faces mask, EntryOk tol o n verts mask e := fun e he => (hspec e he).2.2
+  have hmapL : ((kindsOf tol o n verts faces mask).map fun e =>
+      ((facePos verts e.2.1, mask.getD e.1 true) : PFace K)) = pfacesOf verts faces mask := by
+    unfold kindsOf pfacesOf
+    rw [List.map_map]; rfl
+  unfold slicePositional
+  rw [← hmapL]
+  congr 1
+  · congr 1
+    · apply group_positional tol eps o n verts mask _ hok
+      intro e he
+      have := hok e he
+      obtain ⟨i, f, k⟩ := e
+      unfold EntryOk at this
+      simp only at this
+      simp only [pfKeep, pfKind, ← this]
+      cases k <;> rfl
+    · apply group_positional tol eps o n verts mask _ hok
+      intro e he
+      have := hok e he
+      obtain ⟨i, f, k⟩ := e
+      unfold EntryOk at this
+      simp only at this
+      simp only [pfQuad, pfKind, ← this]
+      cases k <;> rfl
+  · apply group_positional tol eps o n verts mask _ hok
+    intro e he
+    have := hok e he
+    obtain ⟨i, f, k⟩ := e
+    unfold EntryOk at this
+    simp only at this
+    simp only [pfTri, pfKind, ← this]
+    cases k <;> rfl
+
+/-- **independent of how the vertices are numbered**: two indexed meshes with the same positional faces (same
+    triangles in the same order, same mask) give the same positional output — unreferenced vertices, duplicated
+    vertices and relabelings included. -/
+theorem C02_vertex_numbering (tol eps : K) (o n : V3 K) (mask : List Bool)
+    (verts₁ verts₂ : List (V3 K)) (faces₁ faces₂ : List (T3 Nat))
+    (h₁ : verts₁ ≠ []) (h₂ : verts₂ ≠ [])
+    (hv₁ : ∀ f ∈ faces₁, FaceValid verts₁.length f) (hv₂ : ∀ f ∈ faces₂, FaceValid verts₂.length f)
+    (hsame : faces₁.map (facePos verts₁) = faces₂.map (facePos verts₂)) :
+    (sliceMesh tol eps verts₁ faces₁ o n mask).positions = (sliceMesh tol eps verts₂ faces₂ o n mask).positions := by
+  rw [C02_positional tol eps verts₁ faces₁ o n mask h₁ hv₁, C02_positional tol eps verts₂ faces₂ o n mask h₂ hv₂]
+  congr 1
+  unfold pfacesOf
+  have e1 : (faces₁.zipIdx.map fun (x : T3 Nat × Nat) => ((facePos verts₁ x.1, mask.getD x.2 true) : PFace K)) =
+      (faces₁.map (facePos verts₁)).zipIdx.map fun x => (x.1, mask.getD x.2 true) := by
+    rw [List.zipIdx_map, List.map_map]; rfl
+  have e2 : (faces₂.zipIdx.map fun (x : T3 Nat × Nat) => ((facePos verts₂ x.1, mask.getD x.2 true) : PFace K)) =
+      (faces₂.map (facePos verts₂)).zipIdx.map fun x => (x.1, mask.getD x.2 true) := by
+    rw [List.zipIdx_map, List.map_map]; rfl
+  show (faces₁.zipIdx.map fun (x : T3 Nat × Nat) => ((facePos verts₁ x.1, mask.getD x.2 true) : PFace K)) =
+    (faces₂.zipIdx.map fun (x : T3 Nat × Nat) => ((facePos verts₂ x.1, mask.getD x.2 true) : PFace K))
+  rw [e1, e2, hsame]
+
+/-- **independent of the order of the faces**: permuting the (positional face, selected) list permutes the output
+    triangles. -/
+theorem C02_face_order (tol eps : K) (o n : V3 K) (pf₁ pf₂ : List (PFace K)) (h : pf₁.Perm pf₂) :
+    (slicePositional tol eps o n pf₁).Perm (slicePositional tol eps o n pf₂) := by
+  unfold slicePositional
+  exact ((h.filter _).flatMap_right _).append ((h.filter _).flatMap_right _) |>.append
+    ((h.filter _).flatMap_right _)
+
 end PW.C02
